@@ -9,7 +9,7 @@ import sys
 from concurrent.futures import ThreadPoolExecutor
 
 PROPS = [f"C{i:02d}" for i in range(1, 21)]
-SEEDS = sorted(d for d in os.listdir("/verif/seeded") if os.path.isdir(f"/verif/seeded/{d}"))
+SEEDS = sorted(d for d in os.listdir("/verif/seeded") if os.path.isdir(f"/verif/seeded/{d}") and (len(sys.argv) < 2 or sys.argv[1] in d))
 N = 8
 
 
